@@ -874,6 +874,32 @@ func (g *gen) views() map[int]*cview {
 
 func (g *gen) tip() uint64 { return uint64(len(g.stack)) }
 
+// actionsAtBoundary evaluates the lifecycle queries at a height taken from the boundaries of one
+// stored contract's windows (window start minus buffer, window start, window end, each ±1) instead of
+// the current tip: the selection is a function of the stored rows and the queried height alone, and
+// the boundary heights are where an off-by-one or a stale chain column shows.
+func (g *gen) actionsAtBoundary() {
+	w, r := g.w, g.r
+	if len(w.order) == 0 {
+		return
+	}
+	d := w.defs[w.order[r.Intn(len(w.order))]]
+	cands := []uint64{d.ws, d.ws + 1, d.we, d.we + 1}
+	if d.ws >= 1 {
+		cands = append(cands, d.ws-1)
+	}
+	if d.we >= 1 {
+		cands = append(cands, d.we-1)
+	}
+	if d.ws >= w.buf {
+		cands = append(cands, d.ws-w.buf)
+		if d.ws >= w.buf+1 {
+			cands = append(cands, d.ws-w.buf-1)
+		}
+	}
+	w.doActions(g.tr, cands[r.Intn(len(cands))])
+}
+
 // lower: a contract stored by the host sees every block connected afterwards, also those of a
 // competing fork below the height at which it was stored
 func lower(addedAt map[int]int, l int) {
@@ -1245,8 +1271,12 @@ func genHistory(t *testing.T, tr *vhlib.Trace, r *vhlib.Rand, n int, illRate int
 		if r.Chance(1, 4) {
 			w.doActions(tr, g.tip())
 		}
+		if r.Chance(1, 5) {
+			g.actionsAtBoundary()
+		}
 	}
 	w.doActions(tr, g.tip())
+	g.actionsAtBoundary()
 	w.doTwin(tr, g.stack, g.addedAt)
 	if r.Chance(1, 3) {
 		// rescan after a chain-state reset
